@@ -13,6 +13,14 @@
 (*   <<kind, fault class, region class>> with judged = TRUE are the        *)
 (*   classes the real traces must have exercised.                          *)
 (*                                                                         *)
+(* Family = "conc":  the validating read taken look by look (Integrity!LookR)*)
+(*   with ONE operation of another user (plain put / put into a layer /    *)
+(*   remove of right or wrong bytes) at any point; every initial placement *)
+(*   of the key.  Checked: ValidatedOnly on every interleaving.  Every     *)
+(*   <<initial placement, writer operation, number of looks before it>>    *)
+(*   the driver can realise (before, after, or with the reader parked in a *)
+(*   disk layer's lookup) is printed as a program.                         *)
+(*                                                                         *)
 (* Family = "cache": all sequences of D operations of the ValidatedCache   *)
 (*   machine (put_val / get_val / put_raw / get / corrupt / delete) over   *)
 (*   the given layers; checked SafeGet, PutSafe, GoneAfter on the ideal    *)
@@ -21,7 +29,7 @@
 (***************************************************************************)
 EXTENDS Integrity, TLC, Json, SequencesExt
 
-CONSTANTS Family,    \* "art" | "cache"
+CONSTANTS Family,    \* "art" | "cache" | "conc"
           Rule,      \* "spec": the judgement rule of Integrity.tla; "wide": every truncation that removes a covered
                      \* byte is judged (TLC must refute AbsRuleSound: the check value may be gone with it)
           Tier,      \* "quick" | "thorough": which artifact variants
@@ -32,9 +40,10 @@ CONSTANTS Family,    \* "art" | "cache"
           Keys,      \* cache (ml): key names
           Vals,      \* cache: value names (symmetric)
           Hows,      \* cache: kinds of damage
-          D          \* cache: program length
-VARIABLES phase, sc, hist, lay, prev, lastOp, lastRes, how
-vars == <<phase, sc, hist, lay, prev, lastOp, lastRes, how>>
+          D,         \* cache: program length
+          SecondLook \* conc: "none" (HEAD) | "validated" | "unvalidated" (TLC must refute ValidatedOnly)
+VARIABLES phase, sc, hist, lay, prev, lastOp, lastRes, how, rd
+vars == <<phase, sc, hist, lay, prev, lastOp, lastRes, how, rd>>
 
 \* ------------------------------------------------------------------ artifacts
 Row(kind, variant, loader, layout) == [kind |-> kind, variant |-> variant, loader |-> loader, layout |-> layout]
@@ -76,13 +85,13 @@ ClassAbs(s, f) ==
   ELSE IF JudgedAbs(s, f) THEN "prot" ELSE "other"
 
 ArtInit == /\ phase = "produced" /\ sc \in {s \in Scenarios : ScOK(s)}
-           /\ hist = <<>> /\ lay = <<>> /\ prev = <<>> /\ lastOp = [op |-> "none"] /\ lastRes = [res |-> "none"] /\ how = "none"
+           /\ hist = <<>> /\ lay = <<>> /\ prev = <<>> /\ lastOp = [op |-> "none"] /\ lastRes = [res |-> "none"] /\ how = "none" /\ rd = Rd0
 ArtNext == /\ phase = "produced"
            /\ \E f \in FaultsOf(sc) :
                 /\ phase' = "loaded"
                 /\ lastOp' = [op |-> "fault", f |-> f]
                 /\ lastRes' = [res |-> IF AbsLoad(sc.row.layout, sc.n, Apply(sc, f)) THEN "accepted" ELSE "rejected"]
-           /\ UNCHANGED <<sc, hist, lay, prev, how>>
+           /\ UNCHANGED <<sc, hist, lay, prev, how, rd>>
 
 AbsBaseline  == (Family = "art" /\ phase = "produced") => AbsLoad(sc.row.layout, sc.n, Art(sc))
 AbsRuleSound == (Family = "art" /\ phase = "loaded") => (JudgedAbs(sc, lastOp.f) => lastRes.res = "rejected")
@@ -93,6 +102,7 @@ ArtEmit == (Family = "art" /\ phase = "loaded") =>
 \* --------------------------------------------------------------------- cache
 KindSeq == CASE Layers = "d" -> <<"disk">> [] Layers = "m" -> <<"mem">> [] Layers = "md" -> <<"mem", "disk">>
              [] Layers = "mm" -> <<"mem", "mem">> [] Layers = "mmd" -> <<"mem", "mem", "disk">>
+             [] Layers = "dd" -> <<"disk", "disk">> [] Layers = "mdd" -> <<"mem", "disk", "disk">>
 NL == Len(KindSeq)
 IsMl == Comp = "ml"
 KeySet == IF IsMl THEN Keys ELSE Vals            \* a content-addressed cache is keyed by the value's own MD5
@@ -126,14 +136,14 @@ Result(o) ==
 
 CacheInit == /\ phase = "cache" /\ sc = [row |-> "none"] /\ hist = <<>>
              /\ lay = [l \in 1..NL |-> [k \in KeySet |-> NoC]] /\ prev = lay
-             /\ lastOp = [op |-> "none"] /\ lastRes = [res |-> "none"] /\ how = "none"
+             /\ lastOp = [op |-> "none"] /\ lastRes = [res |-> "none"] /\ how = "none" /\ rd = Rd0
 CacheNext == \E o \in CacheOps :
   /\ OpOK(o) /\ Enabled(o)
   /\ LET r == Result(o) IN
      /\ lay' = r.st /\ prev' = lay /\ lastOp' = o /\ lastRes' = r
      /\ how' = IF o.op = "corrupt" THEN o.how ELSE how
   /\ hist' = Append(hist, o)
-  /\ UNCHANGED <<phase, sc>>
+  /\ UNCHANGED <<phase, sc, rd>>
 
 SafeGet == (Family = "cache" /\ lastOp.op = "get_val" /\ Validating) =>
   SafeGetP(lastRes.res = "some", ValidFor(lastRes.c, lastOp.ck))
@@ -147,8 +157,44 @@ CacheEmit == (Family = "cache" /\ Len(hist) = D /\ hist[D].op = "get_val") =>
   PrintT(<<"PROGRAM", ToJson([part |-> "cache", comp |-> Comp, kinds |-> KindSeq, hooks |-> Hooks, keys |-> SetToSeq(KeySet),
                               strategy |-> "on_hit", ops |-> hist])>>)
 
-MCInit == IF Family = "art" THEN ArtInit ELSE CacheInit
-MCNext == IF Family = "art" THEN ArtNext ELSE CacheNext
+\* ---------------------------------------------------------------------- conc
+CKey == "a"
+ConcWriterOps ==
+  {[op |-> "put", k |-> CKey, v |-> v] : v \in Vals} \cup
+  {[op |-> "put_raw", k |-> CKey, v |-> v, layer |-> l - 1] : v \in Vals, l \in 1..NL} \cup
+  {[op |-> "remove", k |-> CKey]}
+ConcInit == /\ phase = "conc" /\ hist = <<>> /\ prev = <<>> /\ lastRes = [res |-> "none"] /\ how = "none"
+            /\ lastOp = [op |-> "none"] /\ rd = Rd0
+            /\ \E j \in 0..NL, v \in Vals, ck \in Vals :
+                 /\ sc = [at0 |-> j, v0 |-> v, ck |-> ck]
+                 /\ lay = [l \in 1..NL |-> [k \in {CKey} |-> IF l = j THEN OkC(v) ELSE NoC]]
+ConcNext ==
+  \/ /\ rd.pc # 0
+     /\ LET r == LookR(lay, rd, CKey, sc.ck, Validating, SecondLook) IN lay' = r.st /\ rd' = r.rd
+     /\ hist' = Append(hist, "r")
+     /\ UNCHANGED <<phase, sc, prev, lastOp, lastRes, how>>
+  \/ /\ lastOp.op = "none"
+     /\ \E w \in ConcWriterOps :
+          /\ lastOp' = w
+          /\ lay' = CASE w.op = "put" -> PlainPutR(lay, CKey, w.v)
+                      [] w.op = "put_raw" -> PutRawR(lay, CKey, w.v, w.layer + 1).st
+                      [] w.op = "remove" -> RemoveAllR(lay, CKey)
+     /\ hist' = Append(hist, "w")
+     /\ UNCHANGED <<phase, sc, prev, lastRes, how, rd>>
+ValidatedOnly == Family = "conc" => ValidatedOnlyP(rd, sc.ck, Validating)
+\* number of looks the reader had made when the writer ran
+LooksBefore == Cardinality({i \in 1..Len(hist) : hist[i] = "r" /\ \E j \in (i + 1)..Len(hist) : hist[j] = "w"})
+WriterLast == hist[Len(hist)] = "w"
+\* what the driver can arrange: the writer first, the writer last, or the reader parked inside a disk layer's lookup
+Realisable == WriterLast \/ LooksBefore = 0 \/ (LooksBefore < NL /\ KindSeq[LooksBefore + 1] = "disk")
+ConcEmit == (Family = "conc" /\ rd.pc = 0 /\ lastOp.op # "none" /\ Realisable) =>
+  PrintT(<<"PROGRAM", ToJson([part |-> "conc", comp |-> "ml", kinds |-> KindSeq, hooks |-> Hooks, keys |-> <<CKey>>, strategy |-> "manual",
+                              init |-> IF sc.at0 = 0 THEN <<>> ELSE <<[op |-> "put_raw", k |-> CKey, v |-> sc.v0, layer |-> sc.at0 - 1]>>,
+                              reader |-> [k |-> CKey, ck |-> sc.ck], writer |-> lastOp,
+                              at |-> IF WriterLast THEN 0 ELSE LooksBefore, after |-> WriterLast])>>)
+
+MCInit == IF Family = "art" THEN ArtInit ELSE IF Family = "conc" THEN ConcInit ELSE CacheInit
+MCNext == IF Family = "art" THEN ArtNext ELSE IF Family = "conc" THEN ConcNext ELSE CacheNext
 Constr == Len(hist) <= D
 Sym == Permutations(Vals)
 =============================================================================
